@@ -267,6 +267,13 @@ def r3_refusals(ctx):
     tests = [nd for nd in g.nodes if nd.kind == 'test' and 'xp.seg_id' in norm(nd.ast)]
     ok = bool(tests) and all(any(t.id in dom[u.id] for t in tests) for u in uses)
     yield Ob('segment:Segment._parse_refdes checks the segment id before using an index', ok, ctx.floc(fn), '' if ok else 'index used before the segment-id test')
+    # no result leaves the function without the test (an early return - a cached answer, a shortcut - would accept a
+    # designator that names another segment)
+    rets = [nd for nd in g.nodes if nd.kind == 'return']
+    late = [r for r in rets if not any(t.id in dom[r.id] for t in tests)]
+    yield Ob('segment:Segment._parse_refdes every result is preceded by the segment-id test', bool(rets) and not late, ctx.floc(fn, late[0].ast if late else fn),
+             '' if rets and not late else 'a return is reached without comparing the designator\'s segment id with this segment\'s: `%s`'
+             % (norm(late[0].ast) if late else 'no return'))
 
 
 def r4_pad_before_store(ctx):
